@@ -26,8 +26,24 @@ def world(ctx) -> World:
     return w
 
 
+def _resolve(w, func: str) -> str:
+    """the qualified name under which the function is DEFINED (a module may only re-export it)"""
+    if func in w.model.funcs:
+        return func
+    mod, _, name = func.rpartition(".")
+    for _ in range(4):
+        bd = w.model.scopes.get(mod, {}).get(name)
+        if bd is None or bd.kind != "func":
+            break
+        if bd.target in w.model.funcs:
+            return bd.target
+        mod, _, name = bd.target.rpartition(".")
+    return func
+
+
 def fresh_result(ctx, rule: str, func: str, what: str) -> None:
     w = world(ctx)
+    func = _resolve(w, func)
     fi = w.model.funcs.get(func)
     if fi is None:
         raise core.AnalysisError(f"anchor {func} not found")
@@ -53,6 +69,7 @@ def grows_shared(ctx, rule: str, func: str, what: str, within=None) -> None:
     restricts the statements looked at to those functions (the ones whose lists make up the result)"""
     from .rules_C16 import classify
     w = world(ctx)
+    func = _resolve(w, func)
     fi = w.model.funcs.get(func)
     if fi is None:
         raise core.AnalysisError(f"anchor {func} not found")
@@ -83,6 +100,7 @@ def grows_shared(ctx, rule: str, func: str, what: str, within=None) -> None:
 
 def keeps_arguments(ctx, rule: str, func: str, what: str) -> None:
     w = world(ctx)
+    func = _resolve(w, func)
     fi = w.model.funcs.get(func)
     if fi is None:
         raise core.AnalysisError(f"anchor {func} not found")
@@ -105,6 +123,7 @@ def no_stale_memo(ctx, rule: str, funcs: List[str], what: str) -> None:
     from .codec import OriginModel
     from .rules_C17 import check_shared_writes
     w = world(ctx)
+    funcs = [_resolve(w, f) for f in funcs]
     for f in funcs:
         if f not in w.model.funcs:
             raise core.AnalysisError(f"anchor {f} not found")
